@@ -81,6 +81,9 @@ func runC13(c *ctx) {
 			hosts = append(hosts, u.Host)
 			ingPaths = append(ingPaths, strings.TrimRight(u.Path, "/"))
 		}
+		var sticky *browser
+		stickyTarget, stHost, stXfh, stPrefix, stEp := "", "", "", "", ""
+		var stQ url.Values
 		for i := 0; i < n; i++ {
 			host := pick(r, append(hosts, hosts[0], "evil.example", strings.ToUpper(hosts[0]), hosts[0]+":8080", ""))
 			xfh := ""
@@ -134,6 +137,23 @@ func runC13(c *ctx) {
 			s.idp.mu.Unlock()
 			nPar, nTok := len(s.idp.parCalls), s.idp.callCount()
 			b := newBrowser()
+			// one visit in three comes from a browser that has ALREADY started (and abandoned) logins: it still holds the earlier attempt's login cookie;
+			// every visit must nevertheless get values of its own - half of those revisit exactly the same URL
+			if r.chance(1, 3) {
+				if sticky == nil || r.chance(1, 10) {
+					sticky, stickyTarget = newBrowser(), target
+					stHost, stXfh, stPrefix, stQ, stEp = host, xfh, prefix, q, ep
+				}
+				b = sticky
+				if r.chance(1, 2) && !parFault {
+					target, host, xfh, prefix, q, ep = stickyTarget, stHost, stXfh, stPrefix, stQ, stEp
+					hdr.Del("X-Forwarded-Host")
+					if xfh != "" {
+						hdr.Set("X-Forwarded-Host", xfh)
+					}
+				}
+				c.count("visit:revisit-with-pending-login-cookie")
+			}
 			req, ok := safeRequest("GET", target)
 			if !ok {
 				continue
@@ -165,14 +185,19 @@ func runC13(c *ctx) {
 			// login cookie
 			var lc openid.LoginCookie
 			hasCookie := false
-			if jc := b.get(cookie.Login); jc != nil {
-				if raw, err := base64.RawURLEncoding.DecodeString(jc.Value); err == nil {
-					if pt, err := s.crypter.Decrypt(raw); err == nil && json.Unmarshal(pt, &lc) == nil {
-						hasCookie = true
+			hasLogoutCookie := false
+			for _, sc := range resp.Cookies { // what THIS response set (a revisiting browser still holds the cookies of earlier visits)
+				if sc.Name == cookie.Login && sc.MaxAge >= 0 && sc.Value != "" {
+					if raw, err := base64.RawURLEncoding.DecodeString(sc.Value); err == nil {
+						if pt, err := s.crypter.Decrypt(raw); err == nil && json.Unmarshal(pt, &lc) == nil {
+							hasCookie = true
+						}
 					}
 				}
+				if sc.Name == cookie.Logout && sc.MaxAge >= 0 && sc.Value != "" {
+					hasLogoutCookie = true
+				}
 			}
-			hasLogoutCookie := b.get(cookie.Logout) != nil
 			challengeOK := hasCookie && params.Get("code_challenge") == oauth2.S256ChallengeFromVerifier(lc.CodeVerifier)
 			if ep == "login" && resp.Status == 302 && hasCookie {
 				note("state", lc.State)
